@@ -114,6 +114,25 @@ func suiteC04(c *Ctx) []Suite {
 			}
 			return out
 		}},
+		{Name: "sml/many-ellipses", Gen: func(c *Ctx) []Case {
+			// messages with 2..14 ellipses (the parser numbers them ...[0], ...[1], …, ...[13])
+			var out []Case
+			for n := 2; n <= 14; n++ {
+				top := &Node{Kind: "L"}
+				for k := 0; k < n; k++ {
+					inner := &Node{Kind: "L", Slots: []Slot{{Child: &Node{Kind: "U", W: 1, Slots: []Slot{{IsVar: true, Name: fmt.Sprintf("v%d", k)}}}}, {IsVar: true, Name: fmt.Sprintf("...[%d]", k)}}}
+					top.Slots = append(top.Slots, Slot{Child: inner})
+				}
+				m := &MsgDesc{S: 1, F: 1, W: 0, Dir: "H->E", Item: top}
+				msg, p := buildMsg(m)
+				if p {
+					out = append(out, Case{Detail: fmt.Sprintf("%d ellipses", n), Oracle: "a template with distinct, correctly numbered ellipses cannot be constructed", Nontrivial: true})
+					continue
+				}
+				out = append(out, Case{Op: smlOp(msg.String()), Oracle: roundTripTextOracle(msg), Nontrivial: true, Tags: []string{fmt.Sprintf("ellipses:%d", n)}})
+			}
+			return out
+		}},
 		{Name: "sml/fixed-point-of-accepted-texts", Gen: func(c *Ctx) []Case {
 			var out []Case
 			for i := 0; i < c.N(1200); i++ {
@@ -198,6 +217,18 @@ func suiteC05(c *Ctx) []Suite {
 					badLit{fmt.Sprintf("I%d", w), "T", "boolean in integer"},
 					badLit{fmt.Sprintf("U%d", w), `"1"`, "string in integer"},
 				)
+			}
+			// digits outside the radix of a prefixed literal, digit separators, trailing garbage
+			for _, ty := range []string{"B", "I1", "I4", "U1", "U8", "A"} {
+				bads = append(bads,
+					badLit{ty, "0b102", "digit outside radix"}, badLit{ty, "0b12", "digit outside radix"}, badLit{ty, "0o78", "digit outside radix"},
+					badLit{ty, "0o8", "digit outside radix"}, badLit{ty, "089", "digit outside radix"}, badLit{ty, "1_0", "digit separator"},
+					badLit{ty, "0x1G", "letter after number"}, badLit{ty, "12ab", "letter after number"}, badLit{ty, "1é", "letter after number"},
+					badLit{ty, "0b10000019", "digit outside radix"}, badLit{ty, "1..2", "two dots"}, badLit{ty, "1e5e5", "two exponents"})
+			}
+			for _, ty := range []string{"F4", "F8"} {
+				bads = append(bads, badLit{ty, "1e5e5", "two exponents"}, badLit{ty, "1.5x", "letter after number"},
+					badLit{ty, "1_0.5", "digit separator"}, badLit{ty, "0b1.1", "binary float"}, badLit{ty, "1e+", "empty exponent"})
 			}
 			bads = append(bads,
 				badLit{"B", "256", "above range"}, badLit{"B", "-1", "negative"}, badLit{"B", "1.5", "fraction"}, badLit{"B", "0b", "empty binary"},
@@ -694,7 +725,7 @@ func suiteC15(c *Ctx) []Suite {
 
 // ---------- C19 ----------
 
-var separators = []string{"", " ", "\n", "\r\n", "\t", "  \n\n", "// c\n", " // c\r\n", "\n// first\n// second\n", " //\n", "// S9F9 W .\n", "\n\n\n"}
+var separators = []string{"// rev A\r rev B\n", "// was:\rS9F9 W H->E Old .\n", " //\r\r\n", "", " ", "\n", "\r\n", "\t", "  \n\n", "// c\n", " // c\r\n", "\n// first\n// second\n", " //\n", "// S9F9 W .\n", "\n\n\n"}
 
 func suiteC19(c *Ctx) []Suite {
 	return []Suite{
